@@ -326,33 +326,94 @@ def analyze(ctx, want):
 
     cr = F.fn(r"internal::dot::compiled_dfa_render$")
     ctx.analysed_fn(cr)
-    ex, paths = run_fn(cr, F, LogModel(), max_paths=5000)
+    ex, paths = run_fn(cr, F, LogModel(), max_paths=5000, desugar=r".|collect")
     main_ok = False
     la_ok = False
+    # two-phase form: the (label, prefix, automaton) of every lookahead is collected first and the clusters are drawn in a second
+    # loop over the collected triples.  Each triple is then checked as if it were drawn where it was built: the second loop's
+    # element is replaced by the triple, and the conditions are those under which the triple was built.
+    elems = []
+    for q in paths:
+        for e_ in q.events:
+            if e_[0] == "collect-item":
+                v_ = ex.deref_val(q, e_[2]) if e_[2][0] == "ref" else e_[2]
+                if v_[0] == "tuple":
+                    elems.append((q, v_, e_[1]))
+    coll_src_ok = True
+
+    def subst_with(tup):
+        def go(t_):
+            if not isinstance(t_, tuple):
+                return t_
+            if len(t_) == 3 and t_[0] == "field" and isinstance(t_[1], tuple) and str(t_[2]).isdigit():
+                b_ = t_[1]
+                n_ = 0
+                while isinstance(b_, tuple) and b_ and b_[0] in ("deref", "ref") and n_ < 6:
+                    b_ = b_[1] if b_[0] == "deref" else (b_[1][1] if not b_[1][2] else b_)
+                    n_ += 1
+                    if b_ and b_[0] == "ref" and b_[1][2]:
+                        break
+                if isinstance(b_, tuple) and b_[:1] == ("sym",) and str(b_[1]).startswith("item@bb") and int(t_[2]) < len(tup[1]):
+                    return tup[1][int(t_[2])]
+            if t_[0] == "ref" and len(t_) >= 3 and t_[1][0] == "loc" and isinstance(t_[1][1], tuple) and t_[1][1][:1] == ("sym",) and str(t_[1][1][1]).startswith("item@bb") and t_[1][2] and t_[1][2][0][0] == "f" and str(t_[1][2][0][1]).isdigit() and len(t_[1][2]) == 1 and int(t_[1][2][0][1]) < len(tup[1]):
+                return tup[1][int(t_[1][2][0][1])]
+            return tuple(go(x) for x in t_)
+        return go
+
+    def check_cluster(pc, p2, c, dfa, pre, reg, labarg):
+        nonlocal la_ok
+        it = re.search(r"(item@bb\d+)", S.fstr(dfa))
+        fp = text_pieces(pre, ex, pc)
+        cl = p2.calls(r"Scope::<.*>::cluster$")
+        lab = fmt_parts(labarg, ex, pc) if labarg is not None else None
+        okc = it is not None and fp is not None and len(fp[1]) == 1 and S.fstr(fp[1][0]).lstrip("&*") == it.group(1) + ".0" and "_" in fp[0] and len(cl) >= 1
+        okl = lab is not None and len(lab[1]) == 2 and S.fstr(lab[1][0]).lstrip("&*") == (it.group(1) + ".0" if it else "?") and "LA for T" in lab[0]
+        pol = [(cc, o) for cc, o in pc.conds if cc[0] == "field" and cc[2] == "is_positive"]
+        okp = False
+        if lab is not None and len(lab[1]) == 2 and pol:
+            txt = S.fstr(lab[1][1])
+            okp = ("Pos" in txt) == (pol[-1][1] is True) and ("Neg" in txt) == (pol[-1][1] is False) and it is not None and it.group(1) in S.fstr(pol[-1][0])
+        la_ok = la_ok or (okc and okl)
+        ob("C18.b", "lookahead-cluster-keyed-and-labelled-by-its-terminal", bool(okc and okl), "prefix args %s, label args %s" % ([S.fstr(v)[:30] for v in fp[1]] if fp else None, [S.fstr(v)[:30] for v in lab[1]] if lab else None), cr.loc(c[1]))
+        ob("C18.b", "lookahead-polarity-label:%s" % ("Pos" if pol and pol[-1][1] else "Neg"), okp, "polarity label %s under is_positive=%s" % (S.fstr(lab[1][1])[:20] if lab and len(lab[1]) == 2 else None, pol[-1][1] if pol else None), cr.loc(c[1]))
+        ob("C18.b", "lookahead-automaton-drawn-with-the-scanner-registry", S.fstr(reg).lstrip("&*") == "character_class_registry" and "cluster" in S.fstr(argval(c, 3)), "registry %s, scope %s" % (S.fstr(reg)[:40], S.fstr(argval(c, 3))[:40]), cr.loc(c[1]))
+    staged_used = False
     for p in paths:
         rc = p.calls(r"dot::render_compiled_dfa$")
         for c in rc:
             dfa, pre, reg = argval(c, 0), argval(c, 1), argval(c, 2)
+            sl = [e for e in p.events if e[0] == "call" and re.search(r"::set_label$", e[2]) and "cluster" in S.fstr(argval(e, 0))]
+            labarg = argval(sl[-1], 1) if sl else None
             if S.fstr(dfa).lstrip("&*") == "compiled_dfa":
                 main_ok = S.fstr(reg).lstrip("&*") == "character_class_registry" and S.fstr(pre) in ('&*""', '""', '*""') or (S.fstr(dfa).lstrip("&*") == "compiled_dfa" and "\"\"" in S.fstr(pre))
             elif "nfa" in S.fstr(dfa):
-                # lookahead cluster
-                it = re.search(r"(item@bb\d+)", S.fstr(dfa))
-                fp = text_pieces(pre, ex, p)
-                cl = p.calls(r"Scope::<.*>::cluster$")
-                sl = [e for e in p.events if e[0] == "call" and re.search(r"::set_label$", e[2]) and "cluster" in S.fstr(argval(e, 0))]
-                lab = fmt_parts(argval(sl[-1], 1), ex, p) if sl else None
-                okc = it is not None and fp is not None and len(fp[1]) == 1 and S.fstr(fp[1][0]).lstrip("&*") == it.group(1) + ".0" and "_" in fp[0] and len(cl) >= 1
-                okl = lab is not None and len(lab[1]) == 2 and S.fstr(lab[1][0]).lstrip("&*") == (it.group(1) + ".0" if it else "?") and "LA for T" in lab[0]
-                pol = [(cc, o) for cc, o in p.conds if cc[0] == "field" and cc[2] == "is_positive"]
-                okp = False
-                if lab is not None and len(lab[1]) == 2 and pol:
-                    txt = S.fstr(lab[1][1])
-                    okp = ("Pos" in txt) == (pol[-1][1] is True) and ("Neg" in txt) == (pol[-1][1] is False) and it is not None and it.group(1) in S.fstr(pol[-1][0])
-                la_ok = la_ok or (okc and okl)
-                ob("C18.b", "lookahead-cluster-keyed-and-labelled-by-its-terminal", bool(okc and okl), "prefix args %s, label args %s" % ([S.fstr(v)[:30] for v in fp[1]] if fp else None, [S.fstr(v)[:30] for v in lab[1]] if lab else None), cr.loc(c[1]))
-                ob("C18.b", "lookahead-polarity-label:%s" % ("Pos" if pol and pol[-1][1] else "Neg"), okp, "polarity label %s under is_positive=%s" % (S.fstr(lab[1][1])[:20] if lab and len(lab[1]) == 2 else None, pol[-1][1] if pol else None), cr.loc(c[1]))
-                ob("C18.b", "lookahead-automaton-drawn-with-the-scanner-registry", S.fstr(reg).lstrip("&*") == "character_class_registry" and "cluster" in S.fstr(argval(c, 3)), "registry %s, scope %s" % (S.fstr(reg)[:40], S.fstr(argval(c, 3))[:40]), cr.loc(c[1]))
+                check_cluster(p, p, c, dfa, pre, reg, labarg)
+            elif elems and re.search(r"item@bb\d+", S.fstr(dfa)):
+                # second phase: this loop walks the collected triples
+                staged_used = True
+                for q, tup, bbq in elems:
+                    sub = subst_with(tup)
+                    d2, p2_, l2 = sub(ex.deref_val(p, dfa) if dfa[0] == "ref" else dfa), sub(ex.deref_val(p, pre) if pre[0] == "ref" else pre), (sub(ex.deref_val(p, labarg) if labarg[0] == "ref" else labarg) if labarg is not None else None)
+                    if "nfa" in S.fstr(d2):
+                        check_cluster(q, p, c, d2, p2_, reg, l2)
+    if staged_used:
+        # the second loop walks the whole collected list
+        from .common import loop_sources as _ls
+        srcs2 = [s_ for _, s_ in _ls(ex, paths)]
+        for q_ in paths:
+            for e_ in q_.events:
+                if e_[0] == "call" and re.search(r"iter::Iterator>::next$", e_[2]) and e_[3]:
+                    v_ = e_[3][0]
+                    n_ = 0
+                    while v_[0] == "ref" and n_ < 6:
+                        v2_ = ex.deref_val(q_, v_)
+                        if v2_ == v_:
+                            break
+                        v_ = v2_
+                        n_ += 1
+                    srcs2.append(S.fstr(v_))
+        walks = any(re.search(r"collect", s_) and "compiled_dfa.lookaheads" in s_ and not re.search(r"Iterator>::(skip|take|rev|filter|step_by|skip_while|take_while)\b", s_) for s_ in srcs2)
+        ob("C18.a", "collected-lookaheads-all-drawn", walks, "second loop over %s" % sorted(set(srcs2))[:3], cr.loc())
     ob("C18.a", "mode-automaton-drawn", main_ok, "render_compiled_dfa(compiled_dfa, \"\", registry, digraph)", cr.loc())
     ob("C18.a", "every-lookahead-drawn-in-a-cluster", la_ok, "lookahead loop draws lookahead.nfa into a fresh cluster", cr.loc())
     its = [M.call_name(t) for bb, t in cr.calls(ADAPTERS)]
